@@ -195,6 +195,7 @@ theorem shape_updateClient (s : St) (c : Nat) (w : Wrap) (hd : Hdr) (ibc : Bool)
   unfold updateClient
   cases w with
   | nested => exact Shape.refl s
+  | storedProposal => exact Shape.refl s
   | wrapped => exact Shape.refl s
   | nestedWrapped => exact Shape.refl s
   | top =>
@@ -379,8 +380,8 @@ theorem mapsInv_createClient {s : St} (h : MapsInv s) (chain : Nat) (p : CParams
   rw [getClient_append s _ c _ rfl, g]
   rfl
 
-theorem chanAck_maps (s : St) (ch : Nat) (ibc : Bool) :
-    (chanAck s ch ibc).1.r2c = s.r2c ∧ (chanAck s ch ibc).1.c2r = s.c2r ∧ (chanAck s ch ibc).1.clients = s.clients := by
+theorem chanAck_maps (s : St) (ch : Nat) (w : ChanRoute) (ibc : Bool) :
+    (chanAck s ch w ibc).1.r2c = s.r2c ∧ (chanAck s ch w ibc).1.c2r = s.c2r ∧ (chanAck s ch w ibc).1.clients = s.clients := by
   unfold chanAck
   repeat' split
   all_goals exact ⟨rfl, rfl, rfl⟩
@@ -413,7 +414,7 @@ theorem step_mapsInv {s : St} (h : MapsInv s) (op : Op) : MapsInv (step s op).1 
   | updateClient c w hd ibc => exact h.of_shape (shape_updateClient s c w hd ibc)
   | misbehaviour c k ibc => exact h.of_shape (shape_misbehaviour s c k ibc)
   | chanInit c => obtain ⟨a, b, d⟩ := chanInit_maps s c; exact h.of_eq a b d
-  | chanAck ch ibc => obtain ⟨a, b, d⟩ := chanAck_maps s ch ibc; exact h.of_eq a b d
+  | chanAck ch w ibc => obtain ⟨a, b, d⟩ := chanAck_maps s ch w ibc; exact h.of_eq a b d
 
 theorem init_mapsInv (p : Core.Params) : MapsInv (init p) :=
   ⟨fun _ _ h => by simp [init, lookup] at h, fun _ _ h => by simp [init, lookup] at h, fun _ _ h => by simp [init, lookup] at h⟩
@@ -441,7 +442,7 @@ theorem step_r2c_stable (s : St) (op : Op) (r c : Nat) (h : lookup s.r2c r = som
   | updateClient c' w hd ibc => simp only [step]; rw [(shape_updateClient s c' w hd ibc).r2c]; exact h
   | misbehaviour c' k ibc => simp only [step]; rw [(shape_misbehaviour s c' k ibc).r2c]; exact h
   | chanInit c' => simp only [step]; rw [(chanInit_maps s c').1]; exact h
-  | chanAck ch ibc => simp only [step]; rw [(chanAck_maps s ch ibc).1]; exact h
+  | chanAck ch w ibc => simp only [step]; rw [(chanAck_maps s ch w ibc).1]; exact h
 
 theorem step_c2r_stable (s : St) (op : Op) (r c : Nat) (h : lookup s.c2r c = some r) : lookup (step s op).1.c2r c = some r := by
   cases op with
@@ -458,6 +459,6 @@ theorem step_c2r_stable (s : St) (op : Op) (r c : Nat) (h : lookup s.c2r c = som
   | updateClient c' w hd ibc => simp only [step]; rw [(shape_updateClient s c' w hd ibc).c2r]; exact h
   | misbehaviour c' k ibc => simp only [step]; rw [(shape_misbehaviour s c' k ibc).c2r]; exact h
   | chanInit c' => simp only [step]; rw [(chanInit_maps s c').2.1]; exact h
-  | chanAck ch ibc => simp only [step]; rw [(chanAck_maps s ch ibc).2.1]; exact h
+  | chanAck ch w ibc => simp only [step]; rw [(chanAck_maps s ch w ibc).2.1]; exact h
 
 end DymVerif.LC
